@@ -190,6 +190,17 @@ func checkC12Sign(c c12SignCase) error {
 	if bridge.Dump(pl) != plBefore {
 		return finding("caller-payload-modified", "SignHashEnvelope modified the caller's payload struct")
 	}
+	// the verdict does not depend on which Go integer type spells the labels of the base headers (those of
+	// the governed parameters 258 / 259 / 260 included)
+	if c.OddCsig == 0 && c.RawUnprot != 2 && !hasDupLabels(p) && !hasDupLabels(u) {
+		h2 := bridge.Headers(respellLabels(p), respellLabels(u))
+		h2.RawProtected, h2.RawUnprotected = h.RawProtected, h.RawUnprotected
+		_, err2 := cose.SignHashEnvelope(refcose.NewEntropy([]byte("c12")), sg, h2, c.payload())
+		if (err == nil) != (err2 == nil) {
+			return finding("verdict-depends-on-label-spelling", "SignHashEnvelope: with the base header labels as given: %v; with every integer label as int64: %v\nprotected=%s unprotected=%s", err, err2, p, u)
+		}
+		stats.Class("verdict-compared-across-label-spellings")
+	}
 	if err != nil {
 		if len(out) != 0 {
 			return finding("bytes-with-error", "SignHashEnvelope returned bytes together with %v", err)
@@ -356,6 +367,17 @@ func TestC12_Sign(t *testing.T) {
 		}
 		judge(rt, "c12sign", c, checkC12Sign)
 	})
+}
+
+// respellLabels: every integer label of the map as int64 (values untouched).
+func respellLabels(v rc.Val) rc.Val {
+	o := v.Clone()
+	for i := range o.M {
+		if o.M[i].K.K == rc.KInt {
+			o.M[i].K.Sp = 0
+		}
+	}
+	return o
 }
 
 func respellAll(v rc.Val) rc.Val {
